@@ -241,7 +241,7 @@ theorem semD_ctl (g : Gate) {c t : ℕ} (hq : g.qubits = [c, t]) (h : ctlQ g.nam
     simpa using hn
   exact ⟨hc, ht, fun e => hct (congrArg Fin.val e), by rw [tgL_pair2 g.qubits hq hm hn hr hct hc ht]⟩
 
-theorem semD_congr (a b : Gate) (hq : a.qubits = b.qubits)
+theorem semD_congr_sched (a b : Gate) (hq : a.qubits = b.qubits)
     (hc : compactC a.name (a.arg.eval ρ) = compactC b.name (b.arg.eval ρ)) : semD N ρ a = semD N ρ b := by
   rw [semD_eq, semD_eq, hc]
   cases compactC b.name (b.arg.eval ρ) with
@@ -444,7 +444,7 @@ theorem fam5_commute (a b : Gate) (A B : Matrix (St N) (St N) ℂ) (ha : semD N 
   have hq : a.qubits = b.qubits := by simp [Gate.qubits, hac, hbc, ht]
   have hcc : compactC a.name (a.arg.eval ρ) = compactC b.name (b.arg.eval ρ) := by
     rw [← hn]; exact compactC_sym a.name ho _ _
-  have := semD_congr (N := N) ρ a b hq hcc
+  have := semD_congr_sched (N := N) ρ a b hq hcc
   rw [ha, hb] at this
   cases this
   exact Commute.refl _
